@@ -44,6 +44,9 @@ def bootstrap():
     import warnings
 
     warnings.filterwarnings("ignore")
+    from . import monitors
+
+    monitors.install_least_squares_dispatcher()  # must precede the import of the package
     import droplets  # noqa: E402
 
     where = Path(droplets.__file__).resolve()
